@@ -289,6 +289,41 @@ def encoder(rep, prog, enc, par, roles):
         for role in ("alg", "t", "m", "salt", "hash"):
             fld = roles[role]
             rep.ob("ENCODER", "PwHash::from_string reads parsed %s" % role, ("." + fld) in allx, "parsed field `%s` is consumed" % fld, loc=fs.loc())
+        # the lengths recorded in the parsed object are the lengths of the parsed salt / hash (they go into
+        # Argon2's initial block: a default length there makes verify recompute a different hash)
+        len_fields = {}
+        for nm_, role_ in (("with_hash_length", "hash"), ("with_salt_length", "salt")):
+            for g_ in cm.find_method(prog, "pwhash::Config", nm_):
+                for b_, i_, st_ in g_.assigns():
+                    pl_ = st_["place"]
+                    fl_ = [pe for pe in pl_["p"] if isinstance(pe, dict) and "n" in pe]
+                    if fl_ and st_["rv"]["k"] == "use" and st_["rv"]["x"].get("k") in ("copy", "move") and \
+                            cm.view_info(g_, st_["rv"]["x"]["l"])[0] == 2:
+                        len_fields[fl_[-1]["n"]] = role_
+                    if st_["rv"]["k"] == "agg" and st_["rv"].get("agg") == "adt":
+                        for fn_, o_ in zip(st_["rv"].get("fields", []), st_["rv"].get("ops", [])):
+                            if o_.get("k") in ("copy", "move") and not o_["p"] and cm.view_info(g_, o_["l"])[0] == 2:
+                                len_fields[fn_] = role_
+        n_len = 0
+        for c_ in fs.calls():
+            for nm_, role_ in (("with_hash_length", "hash"), ("with_salt_length", "salt")):
+                if c_.name == nm_ and c_.rpath.startswith("pwhash::Config") and len(c_.args) == 2:
+                    ex_ = deep_repr(call_arg_exprs(c_)[1])
+                    n_len += 1
+                    rep.ob("ENCODER", "PwHash::from_string records the parsed %s length" % role_, ex_.startswith("len(") and ("." + roles[role_]) in ex_,
+                           "Config::%s(%s)" % (nm_, ex_[:100]), loc=c_.loc())
+        for b_, i_, st_ in fs.assigns():
+            rv_ = st_["rv"]
+            if rv_["k"] == "agg" and rv_.get("agg") == "adt" and rv_.get("path", "").endswith("pwhash::Config"):
+                n_len += sum(1 for fn_ in rv_.get("fields", []) if fn_ in len_fields)
+                for fn_, o_ in zip(rv_.get("fields", []), rv_.get("ops", [])):
+                    if fn_ in len_fields:
+                        ex_ = deep_repr(expr_of_operand(fs, o_))
+                        fld_ = roles[len_fields[fn_]]
+                        okl = ex_.startswith("len(") and ("." + fld_) in ex_
+                        rep.ob("ENCODER", "PwHash::from_string records the parsed %s length" % len_fields[fn_], okl,
+                               "Config.%s <- %s" % (fn_, ex_[:100]), loc=fs.loc(b_))
+        rep.floor("parsed lengths recorded by PwHash::from_string", n_len, 2)
     # crypto_pwhash_str passes the algorithm it hashed with
     for f in prog.by_path.get("classic::crypto_pwhash::crypto_pwhash_str", []):
         a2 = [c for c in f.calls() if c.rpath.endswith("argon2::argon2_hash")]
